@@ -24,7 +24,7 @@ Task: produce TWO different, independent changes to the source under {wt}/src (e
   3. the breakage needs something SPECIFIC to manifest: a particular interleaving, a crash or fault at a particular point, a multi-step sequence of operations, an unusual-but-legitimate input or boundary value, a particular environment, or two cooperating sites that each look fine alone. Do NOT produce changes that ordinary use would expose at once (e.g. always returning a wrong value), and do not produce changes that merely break something unrelated to the property. The change should look like something a developer could plausibly commit (a refactoring, an optimisation, a "simplification", a lint fix).
   4. you write a demonstration `demo.py` (a small stand-alone program, run as `PYTHONPATH=<tree>/src /venv/bin/python demo.py`) that exits 0 on the unchanged tree and exits non-zero (and prints what went wrong) with your change applied. It must finish within 60 seconds, be deterministic, and must not depend on files outside itself except the cobald package and its installed dependencies (trio, PyYAML, toposort, entrypoints are installed in /venv).
 
-Be creative and varied: this is round {rnd}; look for mechanisms that are subtle - e.g. boundary values, unusual types, aliasing/shared objects, ordering, re-entrancy, rarely used parameter combinations, behaviour under a second call, environment dependence, error paths. The two changes must differ in mechanism and, if possible, in the clause they break and the file they touch.
+Be creative and varied: this is round {rnd} (earlier rounds already produced the more obvious faults, so go deeper); look for mechanisms that are subtle - e.g. boundary values, unusual types, aliasing/shared objects, ordering, re-entrancy, rarely used parameter combinations, behaviour under a second call, environment dependence, error paths. The two changes must differ in mechanism and, if possible, in the clause they break and the file they touch.
 
 Deliverables - create these files (and nothing else outside your worktree):
   {out}/{pid}-a/patch.diff   (output of `git -C {wt} diff HEAD` with only change A applied)
